@@ -16,6 +16,9 @@ PROPS["C08"] = {
     "assumptions": ["names never contain empty components or the components * and **",
                     "a pattern shadowed by another pattern matching the same names may be reported as unmatched (not asserted either way)"],
     "units": [
+        # one pattern set consulted by several goroutines at once
+        {"name": "C08Concurrent", "pkg": CC, "test": "TestVerifC08Concurrent", "kind": "rapid", "race": {"quick": False, "thorough": True},
+         "checks": {"quick": 1500, "thorough": 20000}, "shards": {"quick": 2, "thorough": 8}},
         {"name": "C08Singles", "pkg": CC, "test": "TestVerifC08Singles", "kind": "enum"},
         {"name": "C08Pairs", "pkg": CC, "test": "TestVerifC08Pairs", "kind": "enum",
          "shards": {"quick": 8, "thorough": 16}, "env_tier": {"quick": {"VERIF_C08_MAXLEN": 3}, "thorough": {"VERIF_C08_MAXLEN": 4}}},
